@@ -49,3 +49,25 @@ def _ref_operand(code, isa):
         d["pre_indexed"] = "r" in code[1:]
         d["post_indexed"] = "p" in code[1:]
     return d
+
+
+@replay
+def c01_avg(ports, uops, as_dict):
+    from osaca.semantics.hw_model import MachineModel
+    mm = object.__new__(MachineModel)
+    mm._data = {"ports": list(ports)}
+    uo = [[float(Fraction(c)), list(ps)] for c, ps in uops]
+    want = [0.0] * len(ports)
+    missing = [p for _, ps in uo for p in ps if p not in ports]
+    for c, ps in uo:
+        for p in ps:
+            if p in ports:
+                want[ports.index(p)] += c / len(ps)
+    try:
+        got = mm.average_port_pressure({0: uo} if as_dict else uo)
+    except KeyError as e:
+        return (not missing), f"KeyError {e} with ports={ports} uops={uo}"
+    if missing:
+        return True, f"no KeyError although {missing} not in {ports}"
+    bad = any(abs(a - b) > 1e-9 for a, b in zip(got, want)) or len(got) != len(want)
+    return bad, f"average_port_pressure(ports={ports}, uops={uo}) = {got}, uniform split = {want}"
